@@ -107,6 +107,10 @@ func main() {
 			if *kind == "seqc" {
 				rt.SetMode(rt.Controlled)
 			}
+			seqHangHook = func(res *seqResult) {
+				writeJSON(*out, res)
+				os.Exit(0)
+			}
 			res := runSeq(*prop, *tier, *name, *shard, *nshards, time.Duration(*budget)*time.Second)
 			writeJSON(*out, res)
 		case "race":
